@@ -390,7 +390,7 @@ func c04(r *report.Run) {
 			}
 		}
 	}
-	for _, s := range []string{"nil", "", " ", "1 +", `"a" + 1`, "Add(1, 2) + 1", `Cat("a", "b")`, "1 == 2", "I + I", "Boom(1)", "FnInc(1)", "O.Get()", "P.Get()", "M.a", "[1, 2][5]", "1 / 0", "map(A, {Boom(#)})", "NilMember == 1", "Missing(1)", "{a: 1}.a", "1..3", "len(1..1000000)",
+	for _, s := range []string{"nil", "", " ", "1 +", `"a" + 1`, "Add(1, 2) + 1", `Cat("a", "b")`, "1 == 2", "I + I", "Boom(1)", "FnInc(1)", "O.Get()", "P.Get()", "M.a", "[1, 2][5]", "1 / 0", "map(A, {Boom(#)})", "NilMember == 1", "Missing(1)", "PI", "PS", "[PI][0]", "B ? PI : PS", "P", "O.Next", "{a: PI}.a", "{a: 1}.a", "1..3", "len(1..1000000)",
 		"all(1..3, {any([1, 2, 3], {# == 1})})", "count(A, {none(1..5, {# == 3})})", "map(A, {all(1..3, {# > 5})})", "filter(OS, {any(A, {# > 1})})", "one(1..3, {all([1, 2], {# == 1}) or any(A, {# == 2})})", "any(A, {none(A, {# == 1})})"} {
 		addProg(s)
 	}
